@@ -195,6 +195,7 @@ def case_strategy():
             "void": st.booleans(),
             "wrap": st.integers(0, 2),
             "kid": st.booleans(),
+            "prior": st.booleans(),
         }
     )
 
@@ -282,6 +283,29 @@ def run_history(case):
     return tag, model, feats
 
 
+def _plain_values(case):
+    out = []
+
+    def add(pairs_):
+        for _, v in pairs_:
+            if isinstance(v, str):
+                out.append(v)
+
+    for d in case["ctor"][0]:
+        add(d)
+    add(case["ctor"][1])
+    for st_ in case["steps"]:
+        if st_[0] == "update":
+            for d in st_[1]:
+                add(d)
+            add(st_[2])
+        elif st_[0] == "set":
+            add([[st_[1], st_[2]]])
+        elif isinstance(st_[1], str):
+            out.append(st_[1])
+    return out
+
+
 def walk_open_tag(out: str, pos: int, name: str, model: dict, label: str):
     lit = "<" + name
     check(out.startswith(lit, pos), f"{label}: open tag not found", out)
@@ -320,6 +344,13 @@ def walk_open_tag(out: str, pos: int, name: str, model: dict, label: str):
 def body_history(case, note):
     import htmltools as h
 
+    if case.get("prior"):
+        # history: the same characters were rendered earlier in this process as text children / trusted markup
+        for v in _plain_values(case):
+            h.Tag("p", v).get_html_string()
+            h.Tag("p", v, "x").get_html_string()
+            h.TagList(h.HTML(v), v).get_html_string()
+            h.html_escape(v)
     tag, model, feats = run_history(case)
     name = tag.name
     outs = [("get_html_string", tag.get_html_string()), ("str(tag)", str(tag))]
@@ -352,6 +383,7 @@ def body_history(case, note):
         *["op:" + f for f in sorted(feats)],
         "benign-readback" if benign else "",
         "attrs>=3" if len(model) >= 3 else "",
+        "prior-text-render" if case.get("prior") else "",
     )
 
 
@@ -382,7 +414,7 @@ CLAUSES = [
         quick=1500,
         thorough=20000,
         shards_quick=4,
-        required=("merged-plain-x-html-with-metachar", "op:update", "op:set", "op:add_class", "op:add_style", "benign-readback"),
+        required=("merged-plain-x-html-with-metachar", "op:update", "op:set", "op:add_class", "op:add_style", "benign-readback", "prior-text-render"),
         rule="a plain part with a metacharacter",
         fuzz=60000,
     ),
